@@ -140,6 +140,19 @@ def check_to_funsor(v, f, expf, out, sub, what):
     return True
 
 
+def key_orders(d):
+    """the same mapping with its keys inserted in different orders (a dim <-> name map is a
+    set of pairs; the result may not depend on dict insertion order) - found by a seeded fault"""
+    items = list(d.items())
+    seen, out = set(), []
+    for cand in (items, items[::-1], items[1:] + items[:1], sorted(items, key=lambda kv: str(kv[1]))):
+        key = tuple(cand)
+        if key not in seen:
+            seen.add(key)
+            out.append(dict(cand))
+    return out
+
+
 def do_pack(v, t, exp):
     sh, e = tuple(t["sh"]), t["e"]
     n = prod(sh)
@@ -151,10 +164,10 @@ def do_pack(v, t, exp):
         variants = [("explicit", out)]
         if t["auto"] and dtype == "real":
             variants.append(("auto", None))      # output=None: event shape derived from the leftmost name
-        for vn, o in variants:
-            sub = "%s/%s" % (dtype, vn)
+        for vn, o, d2n_k in [(vn, o, (k, dk)) for vn, o in variants for k, dk in enumerate(key_orders(d2n))]:
+            sub = "%s/%s" % (dtype, vn) + ("/keyorder%d" % d2n_k[0] if d2n_k[0] else "")
             try:
-                f = funsor.to_funsor(x, o, dict(d2n))
+                f = funsor.to_funsor(x, o, dict(d2n_k[1]))
             except Exception as ex:  # noqa
                 if t["valid"]:
                     v.bad("to_funsor_raises", sub, {"error": "%s: %s" % (type(ex).__name__, str(ex)[:200])})
@@ -170,7 +183,7 @@ def do_pack(v, t, exp):
                 continue
             n2d = {name: d for name, d in exp["n2d"]}
             try:
-                y = funsor.to_data(f, n2d)
+                y = funsor.to_data(f, key_orders(n2d)[-1])
             except Exception as ex:  # noqa
                 v.bad("to_data_raises", sub, {"error": "%s: %s" % (type(ex).__name__, str(ex)[:200])})
                 continue
@@ -184,18 +197,20 @@ def do_unpack(v, t, exp):
     ev = tuple(t["out"])
     n2d = {name: d for name, d in t["n2d"]}
     d2n = {d: name for d, name in exp["d2n"]}
-    for dtype in DTYPES:
+    for dtype, (ko, n2d_k) in [(dt, kv) for dt in DTYPES for kv in enumerate(key_orders(n2d))]:
         f, data = tensor_of(t["ins"], ev, dtype)
+        if ko:
+            dtype = "%s/keyorder%d" % (dtype, ko)
         try:
-            y = funsor.to_data(f, dict(n2d))
+            y = funsor.to_data(f, dict(n2d_k))
         except Exception as ex:  # noqa
             v.bad("to_data_raises", dtype, {"error": "%s: %s" % (type(ex).__name__, str(ex)[:200])})
             continue
         if not same_array(v, "to_data", dtype, y, exp["y"], "to_data(f, n2d)"):
             continue
-        out = out_domain(ev, dtype, data.size)
+        out = out_domain(ev, dtype.split("/")[0], data.size)
         try:
-            f2 = funsor.to_funsor(y, out, dict(d2n))
+            f2 = funsor.to_funsor(y, out, key_orders(d2n)[ko % len(key_orders(d2n))])
         except Exception as ex:  # noqa
             v.bad("to_funsor_raises", dtype + "/back", {"error": "%s: %s" % (type(ex).__name__, str(ex)[:200])})
             continue
